@@ -88,6 +88,9 @@ func Decrypt(priv *PrivateKey, c1, c2 *big.Int) (msg []byte, err error) {
 	s.Mul(s, c2)
 	s.Mod(s, priv.P)
 	em := s.Bytes()
+	if len(em) == 0 {
+		return nil, errors.New("elgamal: decryption error")
+	}
 
 	firstByteIsTwo := subtle.ConstantTimeByteEq(em[0], 2)
 
